@@ -154,6 +154,11 @@ func c15(c *Ctx) {
 	if c.Mode == "firstuse" {
 		return
 	}
+	var kept struct {
+		role       addrRole
+		text, copy string
+		want       netip.AddrPort
+	}
 	check := func(role addrRole, s string, tag string) {
 		caseNo++
 		verdict, ip, port := classify(role, s)
@@ -204,6 +209,14 @@ func c15(c *Ctx) {
 			if e4 != nil || back != want {
 				c.Res.Violate("C15:"+role.name+":format-parse", fmt.Sprintf("%s address %v formats as %q which parses as %v, %v", role.name, want, text, back, e4), w, caseNo)
 			}
+			// the text of the address formatted before this one is still that address's text (an application formats several
+			// addresses - of any role - before it writes them to its configuration file)
+			if kept.text != "" {
+				if b2, e5 := kept.role.parse(kept.text); kept.text != kept.copy || e5 != nil || b2 != kept.want {
+					c.Res.Violate("C15:"+kept.role.name+":format-parse", fmt.Sprintf("%s address %v was formatted as %q; after the %s address %v had been formatted too, that text reads %q and parses as %v, %v", kept.role.name, kept.want, kept.copy, role.name, want, kept.text, b2, e5), w, caseNo)
+				}
+			}
+			kept.role, kept.text, kept.copy, kept.want = role, text, strings.Clone(text), want
 			if caseNo%50000 == 1 {
 				c.Res.Sample(map[string]any{"role": role.name, "input": s, "parsed": got.String(), "text": text})
 			}
